@@ -128,7 +128,7 @@ impl Property for C14 {
     fn budget(tier: Tier) -> u64 {
         match tier {
             Tier::Quick => 300_000,
-            Tier::Thorough => 8_000_000,
+            Tier::Thorough => 6_000_000,
         }
     }
 
@@ -440,5 +440,18 @@ mod tests {
         m.apply(&Act::SetLinkLatency(Sel::All, Sel::Name(2), 1000));
         assert_eq!(m.eff(1, 2), (1000, 1000));
         assert_eq!(m.eff(0, 1), (2000, 9000));
+    }
+
+    /// Sanity gate (DESIGN 9.5): turmoil's own `override_link_latency` scenario passes the oracle,
+    /// and the receipts show the 2 ms and 10 ms the test asserts.
+    #[test]
+    fn repo_scenario_passes_the_oracle() {
+        let cfg = SimCfg { min_latency_us: 2000, max_latency_us: 2000, tick_us: 1000, ..SimCfg::default() };
+        let udp = vec![UdpBurst { from: 1, to: 0, at_ms: 2, count: 1, by_ip: false }, UdpBurst { from: 1, to: 0, at_ms: 12, count: 1, by_ip: false }];
+        let net = Net { cfg, hosts: 2, udp, conns: vec![], hacts: vec![], script: vec![(10, Act::SetLinkLatency(Sel::Name(1), Sel::Name(0), 10_000))], steps: 40, sample_links: false };
+        let rep = C14::run(&Scenario { net }, true);
+        assert!(rep.violation.is_none(), "{:?}", rep.violation);
+        assert!(rep.log.iter().any(|l| l.contains("t=4000 h0 Recv(Udp { from: 1, to: 0, seq: 0 })")), "{}", rep.log.join("\n"));
+        assert!(rep.log.iter().any(|l| l.contains("t=22000 h0 Recv(Udp { from: 1, to: 0, seq: 1 })")), "{}", rep.log.join("\n"));
     }
 }
